@@ -33,7 +33,9 @@ namespace BitSerializer::KeyValueProxy
 		// Validation when loading
 		if constexpr (TArchive::IsLoading())
 		{
-			keyValue.VisitArgs([result, &keyValue, &archive](auto& handler)
+			// Collect errors from all validators of the field (the context may throw when reached `maxValidationErrors`)
+			ValidationErrors validationErrors;
+			keyValue.VisitArgs([result, &keyValue, &validationErrors](auto& handler)
 			{
 				using Type = std::decay_t<decltype(handler)>;
 				constexpr auto isValidator = is_validator_v<Type, TValue>;
@@ -43,11 +45,15 @@ namespace BitSerializer::KeyValueProxy
 				{
 					if (auto validationError = handler(keyValue.GetValue(), result))
 					{
-						auto path = archive.GetPath() + TArchive::path_separator + Convert::ToString(keyValue.GetKey());
-						archive.GetContext().AddValidationError(std::move(path), std::move(*validationError));
+						validationErrors.emplace_back(std::move(*validationError));
 					}
 				}
 			});
+			if (!validationErrors.empty())
+			{
+				auto path = archive.GetPath() + TArchive::path_separator + Convert::ToString(keyValue.GetKey());
+				archive.GetContext().AddValidationErrors(std::move(path), std::move(validationErrors));
+			}
 		}
 	}
 
